@@ -205,7 +205,7 @@ class Run(object):
                         fp.count += 1
                         raise OSError(fp.err, os.strerror(fp.err) + " [injected]", path)
                     fp.count += 1
-            elif fp.persistent and path == fp.target and (kind in fp.kinds or kind in FAULT_KINDS_EXT):
+            elif fp.persistent and path == fp.target and kind in fp.kinds and kind != "close-w":
                 fp.fired_n += 1
                 raise OSError(fp.err, os.strerror(fp.err) + " [injected]", path)
         # scheduler
@@ -612,7 +612,7 @@ class FileProxy(object):
             raw = getattr(raw, "raw", raw)
             fd = raw.fileno()
             # re-point the descriptor at /dev/null so the implicit flush goes nowhere
-            nul = os.open(os.devnull, os.O_WRONLY)
+            nul = _real[("os", "open")](os.devnull, os.O_WRONLY)
             os.dup2(nul, fd)
             os.close(nul)
             f.close()
